@@ -705,6 +705,11 @@ func checkLog(s *sched, lg *runLog) (findings []finding, stats map[string]int) {
 			if !c.firstSeededMember(idx, xk) {
 				continue
 			}
+			if idx == "exp" && (ho.Kind == "set" || ho.Exp != nil) {
+				// the holder has already written X's new expiry into the record; any other writer's
+				// re-sort of the index moves X away from the head before the holder goes on
+				continue
+			}
 			c.stats["guard_window_claims"]++
 			for j := range cev.Claims {
 				cl := &cev.Claims[j]
